@@ -13,7 +13,7 @@ C05 = g(dict(add_dim=1, del_dim=3, add_attr=3, del_attr=8, rename=1, disable=0, 
 C06 = g(dict(snap=0, restore=0, add_dim=1, del_dim=1, add_attr=3, del_attr=1, rename=4, disable=14, upd=12, rekey=10, prune=5, keygen=6, refresh=8, encaps=20, decaps=10, recaps=2, rt=5, mpk=5))
 # C09: everything, with invalid arguments
 C09 = g(dict(rfbad=6, snap=2, restore=2, add_dim=6, del_dim=4, add_attr=10, del_attr=7, rename=6, disable=5, upd=10, rekey=9, prune=5, keygen=10, refresh=10, encaps=12, decaps=6, recaps=4, rt=2, mpk=2), exotic=True)
-C10 = g(dict(rfbad=6, snap=4, restore=5, add_dim=4, del_dim=3, add_attr=10, del_attr=8, rename=3, disable=10, upd=14, rekey=14, prune=4, keygen=8, refresh=12, encaps=4, decaps=2, recaps=1, rt=1, mpk=1))
+C10 = g(dict(hint=5, rfbad=6, snap=4, restore=5, add_dim=4, del_dim=3, add_attr=10, del_attr=8, rename=3, disable=10, upd=14, rekey=14, prune=4, keygen=8, refresh=12, encaps=4, decaps=2, recaps=1, rt=1, mpk=1))
 C11 = g(dict(snap=0, restore=0, add_dim=3, del_dim=1, add_attr=10, del_attr=3, rename=2, disable=2, upd=10, rekey=10, prune=3, keygen=10, refresh=10, encaps=16, decaps=8, recaps=3, rt=6, mpk=2))
 C13 = g(dict(snap=2, restore=2, add_dim=3, del_dim=2, add_attr=8, del_attr=4, rename=2, disable=4, upd=10, rekey=8, prune=3, keygen=10, refresh=8, encaps=10, decaps=10, recaps=3, rt=30, mpk=3), multibyte=True)
 C17 = g(dict(rfbad=8, snap=3, restore=3, add_dim=1, del_dim=1, add_attr=3, del_attr=3, rename=1, disable=1, upd=6, rekey=6, prune=3, keygen=20, refresh=20, encaps=3, decaps=3, recaps=0, rt=12, mpk=1))
